@@ -81,6 +81,8 @@ pub enum Op {
     /// the signer set is rotated (by the newest set; with the operator's bypass or without): statuses are not the
     /// signers' business and must survive; later approvals are signed by the new set
     Rotate { bypass: bool },
+    /// the owner upgrades the gateway and completes the migration: statuses must be carried over
+    UpgradeAndMigrate,
 }
 
 #[derive(Clone, Debug, Serialize, Deserialize)]
@@ -104,6 +106,7 @@ fn op() -> impl Strategy<Value = Op> {
         1 => mref().prop_map(|m| Op::ValidateAsOther { m }),
         1 => (1u8..90).prop_map(Op::AdvanceDays),
         1 => any::<bool>().prop_map(|bypass| Op::Rotate { bypass }),
+        1 => Just(Op::UpgradeAndMigrate),
     ]
 }
 
@@ -202,6 +205,12 @@ impl Property for C02 {
             let gw_before = snapshot_of(&env, &w.gw.id);
             let mut touched: Vec<(u8, u8)> = vec![];
             match op {
+                Op::UpgradeAndMigrate => {
+                    upgrade_and_migrate(&env, &w.gw.id).map_err(|e| format!("step {}: {}", step, e))?;
+                    cx.label("upgrade_and_migration_in_history");
+                    nontrivial = true;
+                    touched.extend(model.keys().cloned());
+                }
                 Op::Rotate { bypass } => {
                     rotations += 1;
                     let next = simple_set(100 + rotations);
